@@ -1,6 +1,6 @@
 (* C09 — rolling operations are per-group sliding-window reductions. *)
 From Coq Require Import List ZArith Bool.
-From GL Require Import Lib.Arr Lib.Keyed Model.Dom Model.Rolling Proofs.RowGeneric Proofs.RollingInv Proofs.CumSpec Proofs.RollSpec Proofs.RollExt Spec.RowSpec Model.Reduce Proofs.GenTie Gen.TablesGen Proofs.CompensatedSum.
+From GL Require Import Lib.Arr Lib.Keyed Model.Dom Model.Rolling Proofs.RowGeneric Proofs.RollingInv Proofs.CumSpec Proofs.RollSpec Proofs.RollExt Spec.RowSpec Model.Reduce Proofs.TieRolling Gen.TablesGen Proofs.CompensatedSum.
 Import ListNotations.
 Open Scope Z_scope.
 
